@@ -27,6 +27,11 @@
 // absent; never together with the scripted plugin) and script steps that allocate / release through that local detector.
 // EXPECT_N_LEAKS / IGNORE_ALL_LEAKS_IN_TEST only reach the first plugin.  Each leak plugin judges its own detector; the one
 // whose post action runs second finds the test already failed when the first one reported, so a test gets at most one leak failure.
+// Extension (seeded change C07-s7): a realloc step on an existing block can FAIL - "the platform realloc fails" (seam: the
+// PlatformSpecificRealloc function pointer) or "the new separate record cannot be allocated" (the current malloc allocator is
+// a harness allocator with the standard names that refuses one "MemoryLeakNode" request).  Model: a failed realloc changes
+// nothing - NULL comes back, the block stays outstanding and stays with the test that allocated it.  Half of the realloc
+// steps are steered to a malloc block left by an EARLIER test when there is one.
 // Extension (seeded change C07-s6): script steps disable() / enable() on the detector a leak plugin uses (the global one, or
 // the local one of the second leak plugin), anywhere in setup / body / teardown, balanced or not, also followed by a failing
 // check.  After such a step the rest of THAT test allocates nothing with that detector (blocks stamped "disabled" or
@@ -62,7 +67,7 @@ enum OutMode { OUT_PLAIN = 0, OUT_COLLECTING = 1, OUT_JUNIT = 2 };
 const char* fam_name[3] = {"new", "new[]", "malloc"};
 const char* phase_name[3] = {"setup", "body", "teardown"};
 
-struct Op { int kind, slot, fam, blk, old, form; size_t size; unsigned k; };
+struct Op { int kind, slot, fam, blk, old, form, fault; size_t size; unsigned k; };
 const char* form_name[] = {"", "@(file,size_t)", "@(file,int)", "@nothrow", "@sized"};
 struct Phase { int n; Op ops[MAXOPS]; };
 struct Script { Phase ph[3]; };
@@ -78,6 +83,17 @@ char g_final[MSGLEN];
 
 MemoryLeakWarningPlugin* g_plugin;
 MemoryLeakDetector* g_det;
+// fault seams of the realloc step
+bool g_realloc_fail, g_record_alloc_fail; int g_realloc_result_wrong;
+void* (*g_platform_realloc)(void*, size_t);
+void* faulty_realloc(void* p, size_t n) { if (g_realloc_fail) return NULLPTR; return g_platform_realloc(p, n); }
+struct FaultyMallocAllocator : TestMemoryAllocator {        // stands in for defaultMallocAllocator(): same names, same behaviour, one refusable request
+    FaultyMallocAllocator() : TestMemoryAllocator("Standard Malloc Allocator", "malloc", "free") {}
+    char* alloc_memory(size_t size, const char* file, size_t line) CPPUTEST_OVERRIDE {
+        if (g_record_alloc_fail && file && strcmp(file, "MemoryLeakNode") == 0) { g_record_alloc_fail = false; return NULLPTR; }
+        return TestMemoryAllocator::alloc_memory(size, file, line);
+    }
+};
 // second leak plugin with its own detector
 struct CountingReporter : MemoryLeakFailure { int n = 0; void fail(char*) CPPUTEST_OVERRIDE { n++; } };
 CountingReporter g_local_reporter;
@@ -121,9 +137,17 @@ void run_phase(int t, int ph) {             // NON-ALLOCATING interpreter = the 
         case K_STATE: { MemoryLeakDetector* d = o.old ? g_local : g_det; if (o.k) d->enable(); else d->disable(); break; }
         case K_LRELEASE: g_local->deallocMemory(defaultNewAllocator(), g_lslot_ptr[o.slot], "local.cpp", (size_t)(900 + t)); g_lslot_ptr[o.slot] = NULLPTR; break;
         case K_REALLOC: {                                // old < 0: realloc(NULL, n)
+            if (o.fault) {                               // a failing realloc: NULL, nothing changes
+                g_realloc_fail = o.fault == 1; g_record_alloc_fail = o.fault == 2;
+                char* q = (char*)cpputest_realloc_location(g_slot_ptr[o.slot], o.size, "script.c", (size_t)(300 + t));
+                g_realloc_fail = false; g_record_alloc_fail = false;
+                if (q != NULLPTR) { g_realloc_result_wrong++; g_slot_ptr[o.slot] = q; }
+                break;
+            }
             Blk& b = g_blk[o.blk];
             b.num = g_det->getCurrentAllocationNumber();
             char* p = (char*)cpputest_realloc_location(o.old >= 0 ? g_slot_ptr[o.slot] : NULLPTR, o.size, "script.c", (size_t)(300 + t));
+            if (p == NULLPTR) { g_realloc_result_wrong++; break; }
             memset(p, 0x30 + (o.blk % 10), o.size);
             b.p = p; g_slot_ptr[o.slot] = p;
             break; }
@@ -231,7 +255,7 @@ struct TestModel {
     bool leak_by_local = false;      // which plugin reports
     bool leak_failure = false;
     bool cross_release = false, edge_leak = false, expect_nonzero = false;
-    int bulk = 0, reallocs = 0; bool realloc_earlier_not_larger = false;
+    int bulk = 0, reallocs = 0, failed_reallocs = 0; bool realloc_earlier_not_larger = false, failed_realloc_of_earlier = false;
     int state_steps = 0; bool leaves_global_disabled = false, leaves_local_disabled = false;
 };
 
@@ -285,7 +309,7 @@ int run_case(Reader& r, bool& nontrivial, std::string& desc) {
     g_ntests = 1 + (int)r.below(MAXT);
     int outmode = (int)r.below(3);
     bool keep_beyond_final = outmode == OUT_COLLECTING && r.flag();
-    int bulk_total = 0; bool any_form = false, both_conditions = false, any_state_step = false;
+    int bulk_total = 0; bool any_form = false, both_conditions = false, any_state_step = false, any_failed_realloc_of_earlier = false;
     int xmode = (int)r.below(3);
     int lmode = xmode ? 0 : (int)r.below(3);        // 0 none, 1 local leak plugin installed before the first leak plugin (its post action runs first), 2 after
     if (lmode) desc += lmode == 1 ? "[local leak plugin installed before] " : "[local leak plugin installed after] ";
@@ -347,6 +371,9 @@ int run_case(Reader& r, bool& nontrivial, std::string& desc) {
                     }
                     P.n++; continue;
                 }
+                if (kind == 11 && !frozen_global && r.chance(1, 2)) {      // steer half of the realloc steps to a malloc block left by an earlier test
+                    for (int q = 0; q < NSLOT; q++) if (slot_blk[q] >= 0 && g_blk[slot_blk[q]].fam == K_MALLOC && g_blk[slot_blk[q]].owner != t) { slot = q; o.slot = q; break; }
+                }
                 if (kind == 11 && slot_blk[slot] >= 0 && g_blk[slot_blk[slot]].fam != K_MALLOC) kind = 4;   // realloc is for the malloc family: release instead
                 if (kind == 11) {
                     o.kind = K_REALLOC; o.fam = K_MALLOC; o.old = slot_blk[slot]; o.blk = g_nblk;
@@ -359,6 +386,12 @@ int run_case(Reader& r, bool& nontrivial, std::string& desc) {
                         case 1: o.size = ob.size + 1 + r.below(16); break;                  // growing
                         case 2: o.size = ob.size ? r.below((uint32_t)ob.size) : 0; break;   // shrinking
                         case 3: o.size = 0; break;                                          // to 0 bytes: a tracked 0-byte block
+                        }
+                        o.fault = r.below(4) == 1 ? 1 + (int)r.below(2) : 0;               // 1: the platform realloc fails, 2: the new separate record cannot be allocated
+                        if (o.fault) {                                                      // nothing changes: the block stays where it is and whose it is
+                            M.failed_reallocs++; if (ob.owner != t) { M.failed_realloc_of_earlier = true; any_failed_realloc_of_earlier = true; }
+                            desc += sfmt("realloc(s%d%s,%zu<-%zu) FAILS(%s) ", slot, ob.owner != t ? sfmt(" of t%02d", ob.owner).c_str() : "", o.size, ob.size, o.fault == 1 ? "platform realloc" : "record allocation");
+                            P.n++; continue;
                         }
                         ob.live = false;                                                    // the old block is released ...
                         if (ob.owner != t) { M.cross_release = true; if (o.size <= ob.size) M.realloc_earlier_not_larger = true; }
@@ -425,7 +458,7 @@ int run_case(Reader& r, bool& nontrivial, std::string& desc) {
     std::vector<int> final_blocks;
     std::vector<int> lfinal_blocks;
     for (int b = 0; b < g_nblk; b++) if (g_blk[b].live) (g_blk[b].local ? lfinal_blocks : final_blocks).push_back(b);
-    if (both_conditions) nontrivial = true;
+    if (both_conditions || any_failed_realloc_of_earlier) nontrivial = true;
     if (any_state_step && keep_beyond_final) { keep_beyond_final = false; desc += "[output releases at the end of the run after all] "; }   // which period an output block gets is not modelled
     bool disabled_then_verdict = false;      // a test leaves a detector disabled and a later test has something to judge there
     for (int t = 0; t + 1 < g_ntests; t++) for (int u = t + 1; u < g_ntests; u++) {
@@ -451,7 +484,7 @@ int run_case(Reader& r, bool& nontrivial, std::string& desc) {
     memset(g_nfail, 0, sizeof g_nfail); g_unattributed = 0; g_final[0] = 0;
     for (int i = 0; i < NSLOT; i++) g_slot_ptr[i] = NULLPTR;
     size_t residue_before = g_det->totalMemoryLeaks(mem_leak_period_all);
-    g_nkept = 0; g_kept_dropped = 0;
+    g_nkept = 0; g_kept_dropped = 0; g_realloc_fail = false; g_record_alloc_fail = false; g_realloc_result_wrong = 0;
     StringBufferTestOutput plain_output;
     CollectingOutput collecting_output; collecting_output.release_at_end_of_run = !keep_beyond_final;
     JUnitTestOutput junit_output;
@@ -533,6 +566,7 @@ int run_case(Reader& r, bool& nontrivial, std::string& desc) {
         if (!M.own_failures && !M.leak_failure && M.cross_release) verif::cls("test:passes-while-freeing-earlier-block");
         if (M.leak_failure && M.cross_release) verif::cls("test:leaks-although-it-freed-an-earlier-block");
         if (M.reallocs) verif::cls("test:has-realloc-step");
+        if (M.failed_reallocs) verif::cls(M.failed_realloc_of_earlier ? "test:failed-realloc-of-an-earlier-tests-block" : "test:failed-realloc-of-an-own-block");
         if ((M.xpre || M.xpost) && !M.own_failures && !M.ignored && M.leaks.size() != M.expected)
             verif::cls(M.leak_failure ? "test:plugin-failure-after-the-leak-verdict(leak-failure-stays)" : (M.xpre ? "test:plugin-pre-failure-suppresses-leak-failure" : "test:plugin-post-failure-first-suppresses-leak-failure"));
         if (M.realloc_earlier_not_larger) verif::cls(M.leak_failure ? "test:realloc-of-earlier-tests-block-to-same-or-smaller-size(leak-failure)" : "test:realloc-of-earlier-tests-block-to-same-or-smaller-size");
@@ -545,6 +579,7 @@ int run_case(Reader& r, bool& nontrivial, std::string& desc) {
     }
 
     // ---- compare ----
+    V_CHECK(g_realloc_result_wrong == 0, "C07:realloc-result", "%d realloc step(s) returned a block although a fault was injected, or NULL without one", g_realloc_result_wrong);
     V_CHECK(g_unattributed == 0, "C07:failure-for-unknown-test", "%d failure record(s) carry a test name that is not in the program", g_unattributed);
     for (int t = 0; t < g_ntests; t++) {
         TestModel& M = model[(size_t)t];
@@ -592,6 +627,8 @@ extern "C" void verif_init(void) {
     g_lplugin = (MemoryLeakWarningPlugin*)::operator new(sizeof(MemoryLeakWarningPlugin));
     new (g_lplugin) MemoryLeakWarningPlugin("VerifLocalLeakPlugin", g_local);       // constructed after the first one: getFirstPlugin() is not this one
     g_xplugin = new ScriptPlugin();
+    g_platform_realloc = PlatformSpecificRealloc; PlatformSpecificRealloc = faulty_realloc;
+    setCurrentMallocAllocator(new FaultyMallocAllocator());
 }
 extern "C" int verif_case(const uint8_t* data, size_t size) {
     Reader r(data, size);
